@@ -167,7 +167,7 @@ func checkConstUsers(r *Run, rule, val string, allowed []string) {
 	}
 	for _, fn := range P.RepoFns {
 		var hit ssa.Instruction
-		Instrs(fn, func(in ssa.Instruction) {
+		InstrsRaw(fn, func(in ssa.Instruction) {
 			for _, op := range in.Operands(nil) {
 				if c, ok := (*op).(*ssa.Const); ok && c.Value != nil && c.Value.ExactString() == `"`+val+`"` {
 					hit = in
